@@ -74,9 +74,8 @@ func (t *c18Target) export() (c *tree.Cont, err error) {
 	}()
 	c = tree.NewCont()
 	err = t.b.Root().UpsertInto(c.Node(t.root, nil, ""))
-	if err == nil && t.struct_ {
-		dropZero(t.root, c)
-	}
+	// struct-backed targets are exported RAW (zero-valued fields read back as leaves); the
+	// comparison with the model is made modulo zero-valued NON-KEY leaves inside Coq (Tree/DeleteDup.v znorm)
 	return
 }
 
@@ -119,6 +118,7 @@ func C18(ctx *core.Ctx) error {
 		dr := r.Fork(uint64(700 + n))
 		universe := tree.GenData(dr, root, 85, 3)
 		init := tree.Subsample(dr, root, universe, 80, 20)
+		c18DropLists(dr, root, init)
 		steps := 1 + dr.Intn(8)
 		// one stream of operation choices per history, replayed identically on every target kind
 		seed := dr.U64()
@@ -167,7 +167,7 @@ func c18Step(ctx *core.Ctx, r *gen.Rng, t *c18Target, yang string, universe, bef
 	opName := gen.Pick(r, []string{"upsert", "upsert", "delete-kid", "delete-row", "delete-row", "delete-walk", "delete-walk", "replace-kid", "replace-row", "insert-rows", "insert-rows"})
 	fix := func(s *tree.SNode, c *tree.Cont) {
 		if t.struct_ {
-			nonZero(s, c)
+			c18ZeroBias(r, s, c)
 			dedupRows(s, c)
 		}
 	}
@@ -284,8 +284,20 @@ func c18Step(ctx *core.Ctx, r *gen.Rng, t *c18Target, yang string, universe, bef
 		c := gen.Pick(r, lists)
 		nl := &tree.List{}
 		seen := map[string]bool{}
+		repeat := r.Chance(1, 5) // one payload naming the same key twice: must conflict
 		for i := 1 + r.Intn(2); i > 0; i-- {
 			nrow := tree.GenData(r, c.kid, 70, 2)
+			if repeat && len(nl.Rows) > 0 {
+				for _, k := range c.kid.Keys {
+					nrow.Leaves[c.kid.Kids[k].Name] = nl.Rows[0].Leaves[c.kid.Kids[k].Name]
+				}
+				if t.struct_ {
+					c18ZeroBiasNonKey(r, c.kid, nrow)
+				}
+				nl.Rows = append(nl.Rows, nrow)
+				ctx.Count("insert payload naming one key twice")
+				continue
+			}
 			if ex := before.Lists[c.name].Rows; len(ex) > 0 && r.Chance(1, 4) {
 				for _, k := range c.kid.Keys { // an existing key: must conflict
 					nrow.Leaves[c.kid.Kids[k].Name] = ex[0].Leaves[c.kid.Kids[k].Name]
@@ -295,7 +307,9 @@ func c18Step(ctx *core.Ctx, r *gen.Rng, t *c18Target, yang string, universe, bef
 					nrow.Leaves[c.kid.Kids[k].Name] = tree.GenValue(r, c.kid.Kids[k].Leafable())
 				}
 			}
-			fix(c.kid, nrow)
+			if t.struct_ {
+				c18ZeroBias(r, c.kid, nrow)
+			}
 			id := ""
 			for _, k := range c.kid.Keys {
 				id += nrow.Leaves[c.kid.Kids[k].Name].String() + "\x00"
@@ -321,6 +335,14 @@ func c18Step(ctx *core.Ctx, r *gen.Rng, t *c18Target, yang string, universe, bef
 			src = tree.GenDataAgainst(r, root, 40+r.Intn(40), 2, before)
 		}
 		fix(root, src)
+		if c18InjectDups(r, root, src, t.struct_) {
+			ctx.Count("upsert payload naming one key twice")
+			for _, kid := range root.Kids {
+				if kid.Kind == tree.KList && src.Lists[kid.Name] != nil && before.Lists[kid.Name] == nil && c18HasDupKey(kid, src.Lists[kid.Name]) {
+					ctx.Count("upsert payload naming one key twice, target list absent")
+				}
+			}
+		}
 		opTerm, opDesc = emit.App("OpUpsert", src.ContentTerm(root)), "root.UpsertFrom("+src.Desc(root)+")"
 		run = func() error { return t.b.Root().UpsertFrom(src.Node(root, nil, "")) }
 	}
